@@ -77,7 +77,14 @@ def brew_cases(ctx, rng):
             extra["train_thr"] = [1, 4]          # below 1, so that the ascending orientation wins the start-label count
         if j % 7 == 5:
             extra["est_offset"] = [1000000, -250000][j % 2]      # decision function with a large intercept
-        cases.append({"files": [{"rows": rows}], "folds": folds, "workers": 1 + j % 3, "cap": None, "keyw": 2,
+        files = [{"rows": rows}]
+        if j % 6 == 2:
+            # a second, jointly modelled collection (calibration is per collection and fold)
+            rows2 = rows_from_shape(spec_of[: max(2 * folds + 2, n // 2)], rng, id0=5000)
+            for r in rows2:
+                r["f"] = [int(rng.normal(75, 8)) if (r["tgt"] and rng.random() < 0.7) else int(rng.normal(25, 8)), int(rng.integers(0, 50))]
+            files.append({"rows": rows2})
+        cases.append({"files": files, "folds": folds, "workers": 1 + j % 3, "cap": None, "keyw": 2,
                       "fmt": "pin", "thr": thr, "train_thr": [1, 1], "pred_chunk": int(rng.choice([11, 40, 700000])),
                       "read_chunk": 200000, "seed": j, "est": ["feat", "feat", "anti", "proba"][j % 4], "col": 1,
                       "override": True, **extra})      # the user forces use of the model: the best-feature fallback is C07's business
